@@ -469,6 +469,9 @@ def portfolios_all(draw, classes=None, min_assets=1, max_assets=5, max_nodes=3, 
     mk = draw(st.floats(0, 1)) < with_markets
     if mk:
         assets += markets(cx, draw=draw)
+    if draw(st.integers(0, 3)) == 0:
+        # any order of the assets (the market pairs are not always the last ones)
+        assets = [assets[i] for i in draw(st.permutations(list(range(len(assets)))))]
     return {"grid": g, "prices": cx.prices, "assets": assets, "markets": mk}
 
 
